@@ -53,6 +53,16 @@ impl<'a> SendLastStateProofProcess<'a> {
 
         let last_header: VerifiableHeader = self.message.last_header().to_entity().into();
 
+        // The total difficulty of the last header is the sum of two peer-supplied values, and
+        // it is computed when the header is compared with the requested one.
+        if !last_header.is_total_difficulty_computable() {
+            let errmsg = format!(
+                "total difficulty overflows for block#{}",
+                last_header.header().number()
+            );
+            return StatusCode::MalformedProtocolMessage.with_context(errmsg);
+        }
+
         // Update the last state if the response contains a new one.
         if !original_request.is_same_as(&last_header) {
             if self.message.proof().is_empty() {
